@@ -1,1 +1,794 @@
+// Package c06: corrupted or foreign files never crash a reader and stay contained.
+//
+// Drive: a valid multi-day, multi-interface database is produced from a seeded RefDB by the
+// production DBWriter. One file (or the directory name) of ONE day of ONE interface is then mutated
+// at byte level (truncate, extend, bit flips, byte runs, zero fill, garbage, swap of two files of the
+// day, delete, replace by directory / empty file, foreign .blockmeta of another day, forged
+// directory-name suffix, and targeted forging of .blockmeta header fields: version, block count,
+// Len / RawLen / encoder of a block, IPv4/IPv6 entry counts, base timestamp, timestamp deltas).
+// The real query engine (all attribute sets, low-memory on/off, single-family conditions) and the
+// real interface listing (ReadMetadata) are run on the mutant; afterwards the mutation is undone.
+//
+// Oracle:
+//   - no crash: panics on the calling goroutine are caught and reported; panics in worker goroutines
+//     and fatal errors kill the case child, which the framework reports as crash:<kind>@<frame>;
+//     hangs are caught by the framework watchdog (HangIsViolation).
+//   - containment: every containment query requests the `time` attribute, so each result row is
+//     attributable to (interface, day). Rows outside the mutated (interface, day) must equal the
+//     independent query oracle exactly; rows of the mutated day are unconstrained. A query-level
+//     error is a containment violation whenever the oracle expects rows outside the mutated day.
+//   - statistics: for mutators that force a block to be skipped by construction (column file the
+//     query loads deleted / truncated inside a block of the range, IPv4 entry count forged while an
+//     IP column is loaded, .blockmeta unreadable) Summary.Stats.BlocksCorrupted must exceed the value
+//     the same query reports on the pristine database.
 package c06
+
+import (
+	"encoding/binary"
+	"fmt"
+	"math/rand"
+	"os"
+	"path/filepath"
+	"runtime"
+	"runtime/debug"
+	"sort"
+	"strconv"
+	"strings"
+	"time"
+
+	"github.com/els0r/goProbe/v4/pkg/goDB"
+	"github.com/els0r/goProbe/v4/pkg/goDB/encoder/encoders"
+	"github.com/els0r/goProbe/v4/pkg/goDB/engine"
+	"verifharness/checks/c08"
+	"verifharness/eng"
+	"verifharness/fw"
+	"verifharness/gen"
+	"verifharness/rdr"
+	"verifharness/ref"
+)
+
+func init() {
+	fw.Register(&fw.Check{
+		ID:    "C06",
+		Level: "fault_enumeration",
+		Rule: "case = one seeded RefDB (2-3 ifaces, 1-3 days, both IP families, lz4/zstd/null) written by the production DBWriter + a pool of generated queries (always with `time`; attribute sets incl. ones loading no IP column, single-family conditions, low-mem on/off) validated on the pristine DB; " +
+			"then N mutants, each = (interface, day, file, mutator) with 13 byte-level mutators + 8 targeted .blockmeta field forgers, each mutant queried 2-3 times + listed once, then undone. " +
+			"A mutant is non-trivial iff the mutated day holds a block inside the query range and the oracle expects rows outside the mutated day; distinct by (db, target, mutator, parameters).",
+		Assumptions: []string{
+			"mutations touch one file (or the directory name suffix) of one day of one interface; directory names stay parseable (timestamp prefix intact)",
+			"rows are attributed to a day by their time label; rows of the mutated day are unconstrained",
+			"the statistics clause is only checked for mutators that force a skip by construction, as an increase over the pristine value of the same query",
+			"conditions are restricted to shapes not affected by defects owned by C08/C09",
+			"the listing (ReadMetadata) is checked for the no-crash clause only",
+		},
+		NumCases: func(tier, variant string) int {
+			if tier == "thorough" {
+				if variant != "default" {
+					return 150
+				}
+				return 1200
+			}
+			return 50
+		},
+		Variants: func(tier string) []string {
+			if tier == "thorough" {
+				return []string{"default", "race", "asan"}
+			}
+			return []string{"default"}
+		},
+		Run: run,
+		Require: []string{"mutants", "mutants_nontrivial", "containment_checks", "forced_skip_checks", "forced_skip_column_deleted", "forced_skip_column_truncated",
+			"forced_skip_v4count_forged", "forced_skip_meta_unreadable", "mut_meta_field", "mut_truncate", "mut_bitflip", "mut_swap", "mut_delete", "mut_foreign_meta", "mut_suffix",
+			"queries_lowmem", "queries_no_ip_column", "listings"},
+		HangIsViolation: true,
+		CaseTimeout:     180 * time.Second,
+		Env:             func(tier, variant string) []string { return []string{"GOMAXPROCS=4"} },
+	})
+}
+
+// ---------------------------------------------------------------------------------------------
+// on-disk layout knowledge of the harness (written from the format description, shares no code
+// with gpfile): .blockmeta = 72-byte header | 8 x (CurrentOffset u64, n x (Len u32, RawLen u32,
+// enc u8)) | first timestamp u64 | n x (v4 u32, v6 u32, drops u32, tsDelta u32)
+
+var colFiles = []string{"sip.gpf", "dip.gpf", "proto.gpf", "dport.gpf", "bytes_rcvd.gpf", "bytes_sent.gpf", "pkts_rcvd.gpf", "pkts_sent.gpf"}
+
+const (
+	colSIP, colDIP, colProto, colDport = 0, 1, 2, 3
+	metaName                           = ".blockmeta"
+)
+
+type metaLayout struct {
+	n   int
+	raw []byte
+}
+
+func parseMeta(b []byte) (metaLayout, bool) {
+	if len(b) < 72+8*8+8 {
+		return metaLayout{}, false
+	}
+	n := int(binary.BigEndian.Uint64(b[8:16]))
+	if n < 0 || n > 10000 || len(b) != 72+8*(8+9*n)+8+16*n {
+		return metaLayout{}, false
+	}
+	return metaLayout{n: n, raw: b}, true
+}
+
+func (m metaLayout) descOff(col, blk int) int { return 72 + col*(8+9*m.n) + 8 + 9*blk }
+func (m metaLayout) tsBaseOff() int           { return 72 + 8*(8+9*m.n) }
+func (m metaLayout) trafficOff(blk int) int   { return m.tsBaseOff() + 8 + 16*blk }
+func (m metaLayout) blockLen(col, blk int) int {
+	return int(binary.BigEndian.Uint32(m.raw[m.descOff(col, blk):]))
+}
+func (m metaLayout) blockRawLen(col, blk int) int {
+	return int(binary.BigEndian.Uint32(m.raw[m.descOff(col, blk)+4:]))
+}
+func (m metaLayout) timestamps() []int64 {
+	ts := int64(binary.BigEndian.Uint64(m.raw[m.tsBaseOff():]))
+	out := make([]int64, m.n)
+	for i := 0; i < m.n; i++ {
+		ts += int64(binary.BigEndian.Uint32(m.raw[m.trafficOff(i)+12:]))
+		out[i] = ts
+	}
+	return out
+}
+
+// ---------------------------------------------------------------------------------------------
+
+type dayRef struct {
+	iface string
+	day   int64
+	path  string // directory of the day
+	ts    []int64
+}
+
+type mutant struct {
+	kind   string // mutator name (signature class)
+	desc   string // full description for witnesses
+	undo   func() error
+	forced string                 // "" or the forced-skip class
+	hit    func(q c08.Query) bool // forced-skip applicability for a query (nil = never)
+}
+
+var interesting32 = []uint32{0, 1, 2, 3, 7, 8, 0xff, 0x100, 0xffff, 0x10000, 1 << 20, 1 << 24, 0x7fffffff, 0x80000000, 0x80000001, 0xfffffffe, 0xffffffff}
+
+func loadsCol(q c08.Query, col int) bool {
+	name := []string{"sip", "dip", "proto", "dport"}
+	if col >= 4 {
+		return true // counter columns are always loaded
+	}
+	for _, a := range q.Spec.Attrs {
+		if a == name[col] {
+			return true
+		}
+	}
+	if q.Spec.Cond != nil {
+		for _, l := range q.Spec.Cond.Leaves() {
+			switch l.Attr {
+			case "sip", "snet":
+				if col == colSIP {
+					return true
+				}
+			case "dip", "dnet":
+				if col == colDIP {
+					return true
+				}
+			case "dport":
+				if col == colDport {
+					return true
+				}
+			case "proto":
+				if col == colProto {
+					return true
+				}
+			}
+		}
+	}
+	return false
+}
+
+func inRange(q c08.Query, ts int64) bool { return ts >= q.Spec.First && ts <= q.Spec.Last }
+
+func selects(q c08.Query, iface string) bool {
+	for _, n := range q.Spec.Ifaces {
+		if n == iface {
+			return true
+		}
+	}
+	return false
+}
+
+func writeFile(p string, b []byte) error { return os.WriteFile(p, b, 0o644) }
+
+// makeMutant applies one mutation to the day d and returns how to undo it.
+func makeMutant(r *rand.Rand, d dayRef, days []dayRef) (*mutant, error) {
+	metaPath := filepath.Join(d.path, metaName)
+	metaRaw, err := os.ReadFile(metaPath)
+	if err != nil {
+		return nil, err
+	}
+	lay, ok := parseMeta(metaRaw)
+	if !ok {
+		return nil, fmt.Errorf("harness cannot parse pristine .blockmeta of %s (len %d)", d.path, len(metaRaw))
+	}
+	// existing files of the day
+	var files []string
+	for _, f := range append([]string{metaName}, colFiles...) {
+		if _, err := os.Stat(filepath.Join(d.path, f)); err == nil {
+			files = append(files, f)
+		}
+	}
+	colIdx := func(f string) int {
+		for i, c := range colFiles {
+			if c == f {
+				return i
+			}
+		}
+		return -1
+	}
+	pickFile := func() string {
+		if r.Intn(3) == 0 {
+			return metaName
+		}
+		return files[r.Intn(len(files))]
+	}
+	restoreFile := func(p string, orig []byte) func() error {
+		return func() error {
+			os.RemoveAll(p)
+			return writeFile(p, orig)
+		}
+	}
+	m := &mutant{}
+	tag := fmt.Sprintf("iface=%s day=%d", d.iface, d.day)
+	metaUnreadable := func() {
+		m.forced = "meta_unreadable"
+		m.hit = func(q c08.Query) bool {
+			if !selects(q, d.iface) {
+				return false
+			}
+			for _, t := range d.ts {
+				if inRange(q, t) {
+					return true
+				}
+			}
+			return false
+		}
+	}
+	// forced skip if the query loads column col and block blk (which must hold data) is in range
+	colBlockForced := func(class string, col int, blks []int) {
+		m.forced = class
+		m.hit = func(q c08.Query) bool {
+			if !selects(q, d.iface) || !loadsCol(q, col) {
+				return false
+			}
+			for _, b := range blks {
+				if inRange(q, d.ts[b]) {
+					return true
+				}
+			}
+			return false
+		}
+	}
+	switch k := r.Intn(24); {
+	case k < 3: // truncate
+		f := pickFile()
+		p := filepath.Join(d.path, f)
+		orig, _ := os.ReadFile(p)
+		if len(orig) == 0 {
+			return nil, fw.ErrSkip
+		}
+		nl := r.Intn(len(orig))
+		switch r.Intn(4) {
+		case 0:
+			nl = len(orig) - 1
+		case 1:
+			nl = 0
+		}
+		m.kind, m.desc = "truncate", fmt.Sprintf("%s truncate %s from %d to %d bytes", tag, f, len(orig), nl)
+		if err := os.Truncate(p, int64(nl)); err != nil {
+			return nil, err
+		}
+		m.undo = restoreFile(p, orig)
+		if f == metaName {
+			if nl < 72+8*8+8 {
+				metaUnreadable()
+			}
+		} else {
+			// blocks of this column that reach beyond the new length
+			col := colIdx(f)
+			var blks []int
+			off := 0
+			for b := 0; b < lay.n; b++ {
+				l := lay.blockLen(col, b)
+				if l > 0 && lay.blockRawLen(col, b) > 0 && off+l > nl {
+					blks = append(blks, b)
+				}
+				off += l
+			}
+			colBlockForced("column_truncated", col, blks)
+		}
+	case k < 4: // extend with garbage
+		f := pickFile()
+		p := filepath.Join(d.path, f)
+		orig, _ := os.ReadFile(p)
+		g := make([]byte, 1+r.Intn(64))
+		r.Read(g)
+		m.kind, m.desc = "extend", fmt.Sprintf("%s append %d garbage bytes to %s", tag, len(g), f)
+		if err := writeFile(p, append(append([]byte{}, orig...), g...)); err != nil {
+			return nil, err
+		}
+		m.undo = restoreFile(p, orig)
+	case k < 7: // bit flips
+		f := pickFile()
+		p := filepath.Join(d.path, f)
+		orig, _ := os.ReadFile(p)
+		if len(orig) == 0 {
+			return nil, fw.ErrSkip
+		}
+		mut := append([]byte{}, orig...)
+		n := 1 + r.Intn(3)
+		var where []string
+		for i := 0; i < n; i++ {
+			pos, bit := r.Intn(len(mut)), r.Intn(8)
+			mut[pos] ^= 1 << bit
+			where = append(where, fmt.Sprintf("%d.%d", pos, bit))
+		}
+		m.kind, m.desc = "bitflip", fmt.Sprintf("%s flip bits %s of %s (%d bytes)", tag, strings.Join(where, ","), f, len(orig))
+		if err := writeFile(p, mut); err != nil {
+			return nil, err
+		}
+		m.undo = restoreFile(p, orig)
+	case k < 9: // byte run
+		f := pickFile()
+		p := filepath.Join(d.path, f)
+		orig, _ := os.ReadFile(p)
+		if len(orig) == 0 {
+			return nil, fw.ErrSkip
+		}
+		mut := append([]byte{}, orig...)
+		pos := r.Intn(len(mut))
+		n := 1 + r.Intn(16)
+		mode := r.Intn(3)
+		for i := pos; i < pos+n && i < len(mut); i++ {
+			switch mode {
+			case 0:
+				mut[i] = 0
+			case 1:
+				mut[i] = 0xff
+			default:
+				mut[i] = byte(r.Intn(256))
+			}
+		}
+		m.kind, m.desc = "byterun", fmt.Sprintf("%s overwrite %d bytes at %d of %s (mode %d)", tag, n, pos, f, mode)
+		if err := writeFile(p, mut); err != nil {
+			return nil, err
+		}
+		m.undo = restoreFile(p, orig)
+	case k < 10: // zero fill / garbage replacement
+		f := pickFile()
+		p := filepath.Join(d.path, f)
+		orig, _ := os.ReadFile(p)
+		var mut []byte
+		if r.Intn(2) == 0 {
+			mut = make([]byte, len(orig))
+			m.kind, m.desc = "zerofill", fmt.Sprintf("%s zero-fill %s (%d bytes)", tag, f, len(orig))
+		} else {
+			mut = make([]byte, r.Intn(2*len(orig)+2))
+			r.Read(mut)
+			m.kind, m.desc = "garbage", fmt.Sprintf("%s replace %s (%d bytes) by %d random bytes", tag, f, len(orig), len(mut))
+		}
+		if err := writeFile(p, mut); err != nil {
+			return nil, err
+		}
+		m.undo = restoreFile(p, orig)
+	case k < 12: // swap two files of the day
+		if len(files) < 3 {
+			return nil, fw.ErrSkip
+		}
+		a, b := files[r.Intn(len(files))], files[r.Intn(len(files))]
+		if a == b {
+			return nil, fw.ErrSkip
+		}
+		pa, pb := filepath.Join(d.path, a), filepath.Join(d.path, b)
+		oa, _ := os.ReadFile(pa)
+		ob, _ := os.ReadFile(pb)
+		m.kind, m.desc = "swap", fmt.Sprintf("%s swap %s and %s", tag, a, b)
+		if err := writeFile(pa, ob); err != nil {
+			return nil, err
+		}
+		if err := writeFile(pb, oa); err != nil {
+			return nil, err
+		}
+		m.undo = func() error {
+			if err := writeFile(pa, oa); err != nil {
+				return err
+			}
+			return writeFile(pb, ob)
+		}
+	case k < 15: // delete / replace by directory / empty file
+		f := pickFile()
+		p := filepath.Join(d.path, f)
+		orig, _ := os.ReadFile(p)
+		mode := r.Intn(3)
+		os.Remove(p)
+		switch mode {
+		case 0:
+			m.kind, m.desc = "delete", fmt.Sprintf("%s delete %s", tag, f)
+		case 1:
+			m.kind, m.desc = "dir", fmt.Sprintf("%s replace %s by a directory", tag, f)
+			if err := os.Mkdir(p, 0o755); err != nil {
+				return nil, err
+			}
+		default:
+			m.kind, m.desc = "emptyfile", fmt.Sprintf("%s replace %s by an empty file", tag, f)
+			if err := writeFile(p, nil); err != nil {
+				return nil, err
+			}
+		}
+		m.undo = restoreFile(p, orig)
+		if f == metaName {
+			metaUnreadable()
+		} else {
+			col := colIdx(f)
+			var blks []int
+			for b := 0; b < lay.n; b++ {
+				if lay.blockLen(col, b) > 0 && lay.blockRawLen(col, b) > 0 {
+					blks = append(blks, b)
+				}
+			}
+			if mode == 0 {
+				colBlockForced("column_deleted", col, blks)
+			} else if mode == 2 {
+				colBlockForced("column_truncated", col, blks)
+			}
+		}
+	case k < 16: // foreign .blockmeta of another day
+		var others []dayRef
+		for _, o := range days {
+			if o.path != d.path {
+				others = append(others, o)
+			}
+		}
+		if len(others) == 0 {
+			return nil, fw.ErrSkip
+		}
+		o := others[r.Intn(len(others))]
+		foreign, err := os.ReadFile(filepath.Join(o.path, metaName))
+		if err != nil {
+			return nil, err
+		}
+		m.kind, m.desc = "foreign_meta", fmt.Sprintf("%s replace .blockmeta by the one of iface=%s day=%d", tag, o.iface, o.day)
+		if err := writeFile(metaPath, foreign); err != nil {
+			return nil, err
+		}
+		m.undo = restoreFile(metaPath, metaRaw)
+	case k < 17: // forged directory-name suffix (timestamp prefix stays intact)
+		base := filepath.Join(filepath.Dir(d.path), strconv.FormatInt(d.day, 10))
+		sfx := []string{"", "_", "_1-2-3-4-5-6-7", "_zzzzzzzzzzzz-0-0-0-0-0-0", "_0-0-0", "_~~~-~~~-~~~-~~~-~~~-~~~-~~~", "_a_b_c", "_-------", "_" + strings.Repeat("9", 60) + "-1-1-1-1-1-1"}[r.Intn(9)]
+		np := base + sfx
+		if np == d.path {
+			return nil, fw.ErrSkip
+		}
+		m.kind, m.desc = "suffix", fmt.Sprintf("%s rename day directory %s -> %s", tag, filepath.Base(d.path), filepath.Base(np))
+		if err := os.Rename(d.path, np); err != nil {
+			return nil, err
+		}
+		old := d.path
+		m.undo = func() error { return os.Rename(np, old) }
+	default: // targeted .blockmeta field forging
+		mut := append([]byte{}, metaRaw...)
+		blk := r.Intn(lay.n)
+		col := r.Intn(8)
+		val := interesting32[r.Intn(len(interesting32))]
+		put32 := func(off int, name string, cur uint32) bool {
+			switch r.Intn(4) {
+			case 0:
+				val = cur + 1
+			case 1:
+				val = cur - 1
+			case 2:
+				val = cur * 2
+			}
+			if val == cur {
+				return false
+			}
+			binary.BigEndian.PutUint32(mut[off:], val)
+			m.desc = fmt.Sprintf("%s forge .blockmeta %s: %d -> %d", tag, name, cur, val)
+			return true
+		}
+		m.kind = "meta_field"
+		okMut := true
+		switch r.Intn(9) {
+		case 0:
+			v := []uint64{0, 2, 1 << 32, ^uint64(0)}[r.Intn(4)]
+			binary.BigEndian.PutUint64(mut[0:], v)
+			m.desc = fmt.Sprintf("%s forge .blockmeta version -> %d", tag, v)
+		case 1:
+			v := []uint64{0, uint64(lay.n - 1), uint64(lay.n + 1), uint64(2 * lay.n), 1 << 31, 1 << 40, ^uint64(0)}[r.Intn(7)]
+			if int(v) == lay.n {
+				return nil, fw.ErrSkip
+			}
+			binary.BigEndian.PutUint64(mut[8:], v)
+			m.desc = fmt.Sprintf("%s forge .blockmeta nBlocks: %d -> %d", tag, lay.n, v)
+		case 2:
+			okMut = put32(lay.descOff(col, blk), fmt.Sprintf("Len of %s block %d (ts %d)", colFiles[col], blk, d.ts[blk]), uint32(lay.blockLen(col, blk)))
+		case 3, 4:
+			okMut = put32(lay.descOff(col, blk)+4, fmt.Sprintf("RawLen of %s block %d (ts %d)", colFiles[col], blk, d.ts[blk]), uint32(lay.blockRawLen(col, blk)))
+		case 5:
+			off := lay.descOff(col, blk) + 8
+			cur := mut[off]
+			nv := []byte{0, 1, 2, 3, 4, 7, 0x7f, 0xff}[r.Intn(8)]
+			if nv == cur {
+				return nil, fw.ErrSkip
+			}
+			mut[off] = nv
+			m.desc = fmt.Sprintf("%s forge .blockmeta encoder of %s block %d (ts %d): %d -> %d", tag, colFiles[col], blk, d.ts[blk], cur, nv)
+		case 6:
+			off := lay.trafficOff(blk)
+			cur := binary.BigEndian.Uint32(mut[off:])
+			okMut = put32(off, fmt.Sprintf("NumV4Entries of block %d (ts %d)", blk, d.ts[blk]), cur)
+			if okMut {
+				m.forced = "v4count_forged"
+				b := blk
+				m.hit = func(q c08.Query) bool {
+					return selects(q, d.iface) && (loadsCol(q, colSIP) || loadsCol(q, colDIP)) && inRange(q, d.ts[b])
+				}
+			}
+		case 7:
+			off := lay.trafficOff(blk) + 4
+			okMut = put32(off, fmt.Sprintf("NumV6Entries of block %d (ts %d)", blk, d.ts[blk]), binary.BigEndian.Uint32(mut[off:]))
+		default:
+			if r.Intn(2) == 0 {
+				off := lay.tsBaseOff()
+				cur := binary.BigEndian.Uint64(mut[off:])
+				nv := []uint64{0, cur + 86400, cur - 86400, cur + 1, cur - 300, 1 << 62, ^uint64(0), cur + 86400*3}[r.Intn(8)]
+				binary.BigEndian.PutUint64(mut[off:], nv)
+				m.desc = fmt.Sprintf("%s forge .blockmeta base timestamp: %d -> %d", tag, cur, nv)
+			} else {
+				off := lay.trafficOff(blk) + 12
+				okMut = put32(off, fmt.Sprintf("timestamp delta of block %d", blk), binary.BigEndian.Uint32(mut[off:]))
+			}
+		}
+		if !okMut {
+			return nil, fw.ErrSkip
+		}
+		if err := writeFile(metaPath, mut); err != nil {
+			return nil, err
+		}
+		m.undo = restoreFile(metaPath, metaRaw)
+	}
+	return m, nil
+}
+
+// ---------------------------------------------------------------------------------------------
+
+func findDays(dbPath string, db *gen.RefDB) ([]dayRef, error) {
+	var out []dayRef
+	for _, id := range db.Ifaces {
+		byDay := map[int64][]int64{}
+		for _, b := range id.Blocks {
+			byDay[gen.DayStart(b.TS)] = append(byDay[gen.DayStart(b.TS)], b.TS)
+		}
+		matches, _ := filepath.Glob(filepath.Join(dbPath, id.Name, "*", "*", "*"))
+		for _, p := range matches {
+			name := filepath.Base(p)
+			pre, _, _ := strings.Cut(name, "_")
+			day, err := strconv.ParseInt(pre, 10, 64)
+			if err != nil {
+				return nil, fmt.Errorf("unexpected directory %s", p)
+			}
+			ts, ok := byDay[day]
+			if !ok {
+				return nil, fmt.Errorf("directory %s has no counterpart in the RefDB", p)
+			}
+			out = append(out, dayRef{iface: id.Name, day: day, path: p, ts: ts})
+			delete(byDay, day)
+		}
+		if len(byDay) != 0 {
+			return nil, fmt.Errorf("iface %s: %d days of the RefDB have no directory", id.Name, len(byDay))
+		}
+	}
+	sort.Slice(out, func(i, j int) bool { return out[i].path < out[j].path })
+	return out, nil
+}
+
+type poolQuery struct {
+	q        c08.Query
+	want     ref.Rows
+	baseline uint64 // BlocksCorrupted on the pristine DB
+}
+
+func runQuery(c *fw.Case, dbPath string, q c08.Query, what string) (rows ref.Rows, corrupted uint64, err error, pmsg string) {
+	a := eng.Args(q.Type, q.Ifaces, q.Cond, q.Spec.First, q.Spec.Last)
+	a.LowMem = q.LowMem
+	c.Note("%s | %s", what, q.Describe())
+	res, err, pmsg := eng.Run(dbPath, a)
+	if err != nil || pmsg != "" || res == nil {
+		return nil, 0, err, pmsg
+	}
+	rows, _ = ref.FromResult(res.Rows, q.Spec)
+	if res.Summary.Stats != nil {
+		corrupted = res.Summary.Stats.BlocksCorrupted
+	}
+	return rows, corrupted, nil, ""
+}
+
+func listing(dbPath, iface string, first, last int64) (err error, pmsg string) {
+	defer func() {
+		if r := recover(); r != nil {
+			pmsg = fmt.Sprintf("%v\n%s", r, debug.Stack())
+		}
+	}()
+	wm, err := goDB.NewDBWorkManager(goDB.NewMetadataQuery(), dbPath, iface, runtime.NumCPU())
+	if err != nil {
+		return err, ""
+	}
+	_, err = wm.ReadMetadata(first, last)
+	return err, ""
+}
+
+func split(rows ref.Rows, iface string, day int64) (outside ref.Rows) {
+	outside = ref.Rows{}
+	for k, v := range rows {
+		if k.Iface == iface && gen.DayStart(k.TS) == day {
+			continue
+		}
+		outside[k] = v
+	}
+	return outside
+}
+
+func run(c *fw.Case) {
+	r := c.Rng
+	engine.VerifSetNumProcessingUnits(1 + r.Intn(4))
+	db := gen.RandRefDB(r, gen.DBOpts{MaxIfaces: 3, MaxDays: 3, MaxBlocksDay: 4, MaxFlows: 10,
+		Flow: gen.FlowOpts{V6Prob: 0.45, ZeroProb: 0.03, BigCounters: r.Intn(2) == 0}, OffGrid: r.Intn(2) == 0})
+	rdr.Sanitize(db)
+	dbPath := c.Tmp + "/db"
+	enc := []encoders.Type{encoders.EncoderTypeLZ4, encoders.EncoderTypeZSTD, encoders.EncoderTypeNull}[r.Intn(3)]
+	if err := db.Write(dbPath, enc, 0); err != nil {
+		c.Violatef("write_error", "writing generated DB failed: %v", err)
+		return
+	}
+	days, err := findDays(dbPath, db)
+	if err != nil {
+		c.Inconclusive("layout: %v", err)
+		return
+	}
+	tss := db.AllTimestamps()
+	// query pool, validated on the pristine database
+	var pool []poolQuery
+	for len(pool) < 8 {
+		q := rdr.SafeQuery(r, db, rdr.QueryOpts{ForceTime: true, NoDir: true, FullRange: len(pool)%2 == 0})
+		want := ref.Query(db, q.Spec)
+		got, corrupted, err, pmsg := runQuery(c, dbPath, q, "pristine")
+		if pmsg != "" || err != nil {
+			c.Violatef("pristine_query_failed", "db{%s} %s: err=%v panic=%s", db.Summary(), q.Describe(), err, firstLines(pmsg, 10))
+			return
+		}
+		if d := ref.Diff(want, got); d != "" {
+			c.Violatef("pristine_result_vs_oracle|"+c08.CondClass(q), "db{%s} enc=%s %s: %s", db.Summary(), enc, q.Describe(), d)
+			return
+		}
+		pool = append(pool, poolQuery{q: q, want: want, baseline: corrupted})
+	}
+	nMut := 30
+	if c.Tier == "thorough" {
+		nMut = 50
+	}
+	for mi := 0; mi < nMut; mi++ {
+		d := days[r.Intn(len(days))]
+		m, err := makeMutant(r, d, days)
+		if err == fw.ErrSkip {
+			continue
+		}
+		if err != nil {
+			c.Inconclusive("cannot apply mutation on %s: %v", d.path, err)
+			return
+		}
+		c.Count("mutants", 1)
+		c.Count("mut_"+m.kind, 1)
+		desc := fmt.Sprintf("db{%s} enc=%s mutation{%s}", db.Summary(), enc, m.desc)
+		if mi == 0 {
+			c.Sample(map[string]any{"db": db.Summary(), "encoder": enc.String(), "mutation": m.desc, "query": pool[0].q.Describe()})
+		}
+		nontrivial := false
+		for _, pi := range r.Perm(len(pool))[:2+r.Intn(2)] {
+			p := pool[pi]
+			got, corrupted, qerr, pmsg := runQuery(c, dbPath, p.q, m.desc)
+			c.Count("queries", 1)
+			if p.q.LowMem {
+				c.Count("queries_lowmem", 1)
+			}
+			if !loadsCol(p.q, colSIP) && !loadsCol(p.q, colDIP) {
+				c.Count("queries_no_ip_column", 1)
+			}
+			wantOutside := split(p.want, d.iface, d.day)
+			touches := false
+			if selects(p.q, d.iface) {
+				for _, t := range d.ts {
+					if inRange(p.q, t) {
+						touches = true
+					}
+				}
+			}
+			if touches && len(wantOutside) > 0 {
+				nontrivial = true
+			}
+			switch {
+			case pmsg != "":
+				c.Violatef("panic|"+m.kind, "%s %s: panic: %s", desc, p.q.Describe(), firstLines(pmsg, 16))
+				continue
+			case qerr != nil:
+				if len(wantOutside) > 0 {
+					c.Violatef("query_fails_instead_of_skipping|"+m.kind, "%s %s: the whole query failed (%v) although %d rows of undamaged days / interfaces are expected", desc, p.q.Describe(), qerr, len(wantOutside))
+				} else {
+					c.Count("query_error_only_damaged_day_expected", 1)
+				}
+				continue
+			}
+			c.Count("containment_checks", 1)
+			gotOutside := split(got, d.iface, d.day)
+			if diff := ref.Diff(wantOutside, gotOutside); diff != "" {
+				c.Violatef("containment|"+m.kind+"|"+ref.DiffClass(wantOutside, gotOutside), "%s %s: rows outside the damaged day differ from the stored flows: %s", desc, p.q.Describe(), diff)
+			}
+			if m.hit != nil && m.hit(p.q) {
+				c.Count("forced_skip_checks", 1)
+				c.Count("forced_skip_"+m.forced, 1)
+				if corrupted <= p.baseline {
+					c.Violatef("skipped_blocks_not_counted|"+m.forced, "%s %s: a block of the range had to be skipped by construction, but Stats.BlocksCorrupted=%d (pristine: %d); result has %d rows", desc, p.q.Describe(), corrupted, p.baseline, len(got))
+				}
+			}
+		}
+		// a query without the time attribute and the listing: no-crash clause only
+		if r.Intn(2) == 0 {
+			q := rdr.SafeQuery(r, db, rdr.QueryOpts{})
+			_, _, _, pmsg := runQuery(c, dbPath, q, m.desc)
+			c.Count("queries", 1)
+			c.Count("queries_nocrash_only", 1)
+			if pmsg != "" {
+				c.Violatef("panic|"+m.kind, "%s %s: panic: %s", desc, q.Describe(), firstLines(pmsg, 16))
+			}
+		}
+		first, last := tss[0]-1000, tss[len(tss)-1]+1000
+		if r.Intn(2) == 0 {
+			first, last = d.ts[0]-int64(r.Intn(400)), d.ts[len(d.ts)-1]+int64(r.Intn(400))-200
+			if last < first {
+				last = first
+			}
+		}
+		c.Note("%s | listing %s %d..%d", m.desc, d.iface, first, last)
+		lerr, lp := listing(dbPath, d.iface, first, last)
+		c.Count("listings", 1)
+		if lp != "" {
+			c.Violatef("panic_listing|"+m.kind, "%s ReadMetadata(%s, %d, %d): panic: %s", desc, d.iface, first, last, firstLines(lp, 16))
+		}
+		if lerr != nil {
+			c.Count("listing_errors", 1)
+		}
+		if nontrivial {
+			c.Count("mutants_nontrivial", 1)
+			c.Nontrivial(db.Summary() + m.desc)
+		}
+		if err := m.undo(); err != nil {
+			c.Inconclusive("cannot undo mutation %s: %v", m.desc, err)
+			return
+		}
+	}
+	// the undo logic must have restored the pristine database
+	for _, p := range pool[:2] {
+		got, _, err, pmsg := runQuery(c, dbPath, p.q, "after undo")
+		if err != nil || pmsg != "" || ref.Diff(p.want, got) != "" {
+			c.Inconclusive("harness: database not pristine after undoing all mutations (%v %s %s)", err, firstLines(pmsg, 5), ref.Diff(p.want, got))
+			return
+		}
+	}
+}
+
+func firstLines(s string, n int) string {
+	l := strings.Split(s, "\n")
+	if len(l) > n {
+		l = l[:n]
+	}
+	return strings.Join(l, "\n")
+}
